@@ -1,5 +1,6 @@
 import Sudachi.Proofs.Subset
 import Sudachi.Proofs.SubsetTok
+import Sudachi.Proofs.SubsetRw
 /-!
 # C11 — Loading a subset of word fields never changes the fields that were requested
 
@@ -9,7 +10,10 @@ fields with their byte-level readers and skip functions), `Subset.normalize`
 `Subset.getWordInfo` (`WordInfos::get_word_info`), the accessors, `setMode`/`setSubset`,
 `Subset.getWordInfoSubset` (`LexiconSet::get_word_info_subset` with the per-field POS / dictionary-id
 fix-ups of user dictionaries), `Subset.tokenize` (`resolve_best_path` + `split_path` +
-`NodeSplitIterator::next` on the best path the lattice search hands over).
+`NodeSplitIterator::next` on the best path the lattice search hands over), `Subset.tokenizeRw`
+(the same with the path-rewrite plugins between `resolve_best_path` and `split_path`: the plugin model
+of C14, `Sudachi.Model.Rewrite`, run on the word infos loaded with the tokenizer's subset; `set_subset`
+variant `pw = cur` = the tree, `fix` = the request widened by the fields the configured plugins declare).
 Quantifiers: every word the binary format can represent (`WF`: scalar values, at most 32 767
 UTF-16 units per string, at most 255 array elements, 16/32-bit numbers), every request mask
 (all 1 024 subsets, junk bits included), arbitrary bytes after the record.
@@ -313,6 +317,293 @@ theorem boundaries_subset_free (v : NzVariant) (src : Src) (po : List Nat) (nsys
   exact tokenize_agree (lexSetOf src po nsys) (applyOps v (newTok m0) ops).mode
     (applyOps v (newTok m0) ops).subset ALL
     (gwisAgree_all src po nsys hok _ _ hflag) text path
+
+/-! ### the skip functions -/
+
+/-- **Skipping a field consumes exactly the bytes parsing it consumes (full): every one of the ten field
+codecs, EVERY input.**  Whenever the "true" function of a `parse_field!` invocation (`utf16_string_parser`,
+`u32_array_parser` / `u32_wid_array_parser`, `string_length_parser`, `le_u16`, `le_i32`) succeeds on ANY
+byte string — a well-formed record or not, any length prefix incl. the two-byte form, any count byte —
+its "false" function (`skip_u16_string`, `skip_wid_array`, `skip_u32_array`, the light fields' own reader)
+succeeds as well and leaves the SAME remaining input.  (`skip_u16_string` must therefore honour the
+two-byte length prefix, `skip_*_array` the one-byte count.) -/
+theorem skip_eq_parse_then_drop (f : Field) (hf : f ∈ fields) (bs : Bytes)
+    (upd : WordInfoData → WordInfoData) (next : Bytes) (h : f.tfn bs = .ok (upd, next)) : f.ffn bs = .ok next := by
+  simp only [fields, List.mem_cons, List.not_mem_nil, or_false] at hf
+  rcases hf with rfl | rfl | rfl | rfl | rfl | rfl | rfl | rfl | rfl | rfl
+  · obtain ⟨v, hv⟩ := assign_ok h; exact utf16String_ok_skip hv
+  · obtain ⟨v, hv⟩ := assign_ok h; exact forget_of_ok hv
+  · obtain ⟨v, hv⟩ := assign_ok h; exact forget_of_ok hv
+  · obtain ⟨v, hv⟩ := assign_ok h; exact utf16String_ok_skip hv
+  · obtain ⟨v, hv⟩ := assign_ok h; exact forget_of_ok hv
+  · obtain ⟨v, hv⟩ := assign_ok h; exact utf16String_ok_skip hv
+  · obtain ⟨v, hv⟩ := assign_ok h; exact u32Array_ok_skip hv
+  · obtain ⟨v, hv⟩ := assign_ok h; exact u32Array_ok_skip hv
+  · obtain ⟨v, hv⟩ := assign_ok h; exact u32Array_ok_skip hv
+  · obtain ⟨v, hv⟩ := assign_ok h; exact u32Array_ok_skip hv
+
+/-- **…and on what the writer emits both succeed and consume exactly the encoding (full), all lengths.**
+For every representable string (0 … 32 767 UTF-16 units; the writer `write_len` uses ONE length byte below
+127 units and TWO from 127 on, the reader switches at 128 — both read 127 back) the parser returns the
+string, the skip function returns the same rest, and the number of bytes stepped over is
+`(1 or 2) + 2·units`. -/
+theorem skip_string_consumes_encoding (s : List Nat) (hs : StrOk s) (rest : Bytes) :
+    utf16String (encStr s ++ rest) = .ok (s, rest) ∧ skipU16String (encStr s ++ rest) = .ok rest ∧
+    (encStr s).length = (if (toUtf16 s).length < 127 then 1 else 2) + 2 * (toUtf16 s).length :=
+  ⟨utf16String_encStr hs rest, skipU16String_encStr hs rest, length_encStr s⟩
+
+/-- the same for the id arrays (one count byte, 0 … 255 elements of four bytes): `skip_wid_array` /
+`skip_u32_array` step over `1 + 4·count` bytes, exactly what `u32_wid_array_parser` / `u32_array_parser`
+consume -/
+theorem skip_array_consumes_encoding (a : List Nat) (ha : ArrOk a) (rest : Bytes) :
+    u32Array (encArr a ++ rest) = .ok (a, rest) ∧ skipArray (encArr a ++ rest) = .ok rest ∧
+    (encArr a).length = 1 + 4 * a.length :=
+  ⟨u32Array_encArr ha rest, skipArray_encArr ha rest, length_encArr a⟩
+
+/-- the boundary values of the length prefix, as the writer emits them and as the reader takes them -/
+example : encLen 0 = [0] ∧ encLen 126 = [126] ∧ encLen 127 = [128, 127] ∧ encLen 128 = [128, 128] ∧
+    encLen 255 = [128, 255] ∧ encLen 256 = [129, 0] ∧ encLen 32767 = [255, 255] := by decide
+example (rest : Bytes) : stringLength ([127] ++ rest) = .ok (127, rest) := stringLength_short (by omega) rest
+example (rest : Bytes) : stringLength ([128, 127] ++ rest) = .ok (127, rest) := stringLength_encLen (n := 127) (by omega) rest
+/-- strings of exactly 126 / 127 / 128 / 32 767 units and arrays of 0 / 1 / 127 / 255 elements are
+inside the quantifier of the two theorems above -/
+example (rest : Bytes) : skipU16String (encStr (List.replicate 127 97) ++ rest) = .ok rest :=
+  (skip_string_consumes_encoding _ (strOk_replicate 127 (by omega)) rest).2.1
+example (rest : Bytes) : skipU16String (encStr (List.replicate 128 97) ++ rest) = .ok rest :=
+  (skip_string_consumes_encoding _ (strOk_replicate 128 (by omega)) rest).2.1
+example (rest : Bytes) : skipU16String (encStr (List.replicate 32767 97) ++ rest) = .ok rest ∧
+    (encStr (List.replicate 32767 97)).length = 2 + 2 * 32767 := by
+  obtain ⟨_, h2, h3⟩ := skip_string_consumes_encoding _ (strOk_replicate 32767 (by omega)) rest
+  refine ⟨h2, ?_⟩
+  rw [h3, toUtf16_replicate, List.length_replicate]
+  rfl
+example (rest : Bytes) : skipArray (encArr (List.replicate 127 7) ++ rest) = .ok rest :=
+  (skip_array_consumes_encoding _ (arrOk_replicate 127 (by omega)) rest).2.1
+example (rest : Bytes) : skipArray (encArr (List.replicate 255 7) ++ rest) = .ok rest :=
+  (skip_array_consumes_encoding _ (arrOk_replicate 255 (by omega)) rest).2.1
+example (rest : Bytes) : skipArray (encArr [] ++ rest) = .ok rest ∧ skipArray (encArr [7] ++ rest) = .ok rest :=
+  ⟨(skip_array_consumes_encoding _ arrOk_nil rest).2.1, (skip_array_consumes_encoding _ (arrOk_replicate 1 (by omega)) rest).2.1⟩
+/-- the hypothesis of `skip_eq_parse_then_drop` is inhabited by inputs that are NOT encodings of a word:
+a two-byte length prefix for a one-unit string -/
+example : skipU16String [128, 1, 97, 0, 5] = .ok [5] ∧ (utf16String [128, 1, 97, 0, 5]) = .ok ([97], [5]) := by decide
+
+/-! ### second clause WITH path-rewrite plugins -/
+
+/-- **`set_subset` closes the request, `set_mode` never opens it again.**  After any sequence of
+`set_mode` / `set_subset` on a fresh tokenizer: if NORMALIZED_FORM is loaded so is SURFACE — i.e. the
+accessor `normalized_form()` (stored form, or the surface when that is empty), which is what
+`JoinNumericPlugin` reads, is the full-load one as soon as the flag NORMALIZED_FORM is in the subset. -/
+theorem surface_loaded_with_normalized_form (v : NzVariant) (m0 : Mode) (ops : List Op) :
+    (applyOps v (newTok m0) ops).subset.testBit NORMALIZED_FORM = true →
+    (applyOps v (newTok m0) ops).subset.testBit SURFACE = true := by
+  have hms : ∀ m : Mode, (modeSubset m).testBit NORMALIZED_FORM = false := by intro m; cases m <;> decide
+  have step : ∀ (st : TokState) (op : Op),
+      (st.subset.testBit NORMALIZED_FORM = true → st.subset.testBit SURFACE = true) →
+      ((applyOp v st op).subset.testBit NORMALIZED_FORM = true → (applyOp v st op).subset.testBit SURFACE = true) := by
+    intro st op ih
+    cases op with
+    | mode m =>
+      intro h
+      simp only [applyOp, setMode, Nat.testBit_or, hms, Bool.or_false] at h ⊢
+      simp [ih h]
+    | subset s =>
+      intro h
+      simp only [applyOp, setSubset, Nat.testBit_or, hms, Bool.or_false] at h ⊢
+      rw [normalize_testBit_ge2 v _ NORMALIZED_FORM (by decide)] at h
+      simp [normalize_surface_of_forms v _ (Or.inr h)]
+  have gen : ∀ (ops : List Op) (st : TokState),
+      (st.subset.testBit NORMALIZED_FORM = true → st.subset.testBit SURFACE = true) →
+      ((applyOps v st ops).subset.testBit NORMALIZED_FORM = true → (applyOps v st ops).subset.testBit SURFACE = true) := by
+    intro ops
+    induction ops with
+    | nil => intro st h; exact h
+    | cons op ops ih => intro st h; exact ih (applyOp v st op) (step st op h)
+  exact gen ops (newTok m0) (fun _ => all_testBit (by decide))
+
+/-- **Clause 2 with path-rewrite plugins, under the exact condition (full).**  For every well-formed
+lexicon set, every initial mode and sequence of `set_mode` / `set_subset`, every rewritten text with its
+character classes, every behaviour `P` of the numeric parser, EVERY stack of `JoinNumericPlugin` /
+`JoinKatakanaOovPlugin` instances (any order, any settings, both variants of the numeric loop) and every
+best path: if the subset the tokenizer ended up with holds POS_ID and NORMALIZED_FORM — the two fields
+`JoinNumericPlugin` reads through `pos_id()` / `normalized_form()`; SURFACE then follows
+(`surface_loaded_with_normalized_form`) — the word ids and byte boundaries of `resolve_best_path` + the
+plugin stack + `split_path` (and the failure, if any) equal those of a full-field analysis in the same
+final mode.  Everything else the plugins touch (`reading_form`, `dictionary_form`, its id, synonym ids,
+word structure, the split list of the other modes) is only copied into merged nodes and never decides. -/
+theorem boundaries_subset_free_plugins (v : NzVariant) (nv : Rewrite.NVariant) (src : Src) (po : List Nat) (nsys : Nat)
+    (hok : LexSetOk src po) (m0 : Mode) (ops : List Op) (text : Bytes) (cat : List Nat) (P : List Char → Rewrite.POut)
+    (pls : List Rewrite.Plugin) (path : List XNode)
+    (hp : (applyOps v (newTok m0) ops).subset.testBit POS_ID = true)
+    (hn : (applyOps v (newTok m0) ops).subset.testBit NORMALIZED_FORM = true) :
+    shapeOut (tokenizeRw nv (lexSetOf src po nsys) (applyOps v (newTok m0) ops) text cat P pls path) =
+    shapeOut (tokenizeRw nv (lexSetOf src po nsys) (newTok (applyOps v (newTok m0) ops).mode) text cat P pls path) := by
+  have hflag := mode_flag_loaded_any_order v m0 ops
+  have hs := surface_loaded_with_normalized_form v m0 ops hn
+  exact tokenizeRw_agree nv (lexSetOf src po nsys) true (applyOps v (newTok m0) ops).mode
+    (applyOps v (newTok m0) ops).subset ALL
+    (gwisAgreeRW_all src po nsys hok true _ _ (fun _ => ⟨hs, hp, hn⟩) ⟨3, by omega, by omega, hn⟩ hflag)
+    text cat P pls (fun _ => rfl) path
+
+/-- **Stacks without `JoinNumericPlugin` need no word-info string at all.**  `JoinKatakanaOovPlugin`
+decides from word ids, character ranges and character classes only; the merged node adds the head-word
+lengths in a `u16`, so the only thing the request must not change is whether the reader reaches the
+head-word length: true in modes A and B (the split flag is behind it), in mode C as soon as any flag
+other than SURFACE / SYNONYM_GROUP_ID is requested.  (For the remaining requests — {} and {SURFACE} in
+mode C — see `boundaries_subset_free_katakana_any_request`: equality under the hypothesis that the `u16`
+sum cannot overflow, which holds on the real code because head-word lengths are key lengths.) -/
+theorem boundaries_subset_free_katakana (v : NzVariant) (nv : Rewrite.NVariant) (src : Src) (po : List Nat) (nsys : Nat)
+    (hok : LexSetOk src po) (m0 : Mode) (ops : List Op) (text : Bytes) (cat : List Nat) (P : List Char → Rewrite.POut)
+    (pls : List Rewrite.Plugin) (path : List XNode) (hk : ¬ HasNumeric pls)
+    (hh : (applyOps v (newTok m0) ops).mode ≠ .C ∨ HwlLoaded (applyOps v (newTok m0) ops).subset) :
+    shapeOut (tokenizeRw nv (lexSetOf src po nsys) (applyOps v (newTok m0) ops) text cat P pls path) =
+    shapeOut (tokenizeRw nv (lexSetOf src po nsys) (newTok (applyOps v (newTok m0) ops).mode) text cat P pls path) := by
+  have hflag := mode_flag_loaded_any_order v m0 ops
+  have hl : HwlLoaded (applyOps v (newTok m0) ops).subset := by
+    rcases hh with hm | hl
+    · revert hflag hm
+      generalize (applyOps v (newTok m0) ops) = st
+      intro hflag hm
+      cases hmode : st.mode with
+      | A => exact ⟨6, by omega, by omega, hflag 6 (by rw [hmode]; decide)⟩
+      | B => exact ⟨7, by omega, by omega, hflag 7 (by rw [hmode]; decide)⟩
+      | C => exact absurd hmode hm
+    · exact hl
+  exact tokenizeRw_agree nv (lexSetOf src po nsys) false (applyOps v (newTok m0) ops).mode
+    (applyOps v (newTok m0) ops).subset ALL
+    (gwisAgreeRW_all src po nsys hok false _ _ (fun h => by cases h) hl hflag)
+    text cat P pls (fun h => absurd h hk) path
+
+/-- **Stacks without `JoinNumericPlugin`, EVERY request (full under the no-overflow hypothesis).**  The
+residual of `boundaries_subset_free_katakana` — requests under which the reader does not even reach the
+head-word length ({} and {SURFACE} in mode C) — closed under the only thing that can tell the two analyses
+apart: the `u16` addition of head-word lengths in `concat_oov_nodes`.  If that sum over the best path
+overflows neither under the request nor under the full load (head-word lengths are byte lengths of keys
+of a text of at most 65 535 bytes: true of every dictionary the builder produces, but not a consequence of
+the record format, hence a hypothesis), word ids and byte boundaries are those of the full-field analysis
+for EVERY sequence of `set_mode` / `set_subset` — the plugin's decisions read word ids, character ranges
+and character classes only. -/
+theorem boundaries_subset_free_katakana_any_request (v : NzVariant) (nv : Rewrite.NVariant) (src : Src) (po : List Nat)
+    (nsys : Nat) (hok : LexSetOk src po) (m0 : Mode) (ops : List Op) (text : Bytes) (cat : List Nat)
+    (P : List Char → Rewrite.POut) (pls : List Rewrite.Plugin) (path : List XNode) (hk : ¬ HasNumeric pls)
+    (hfit : ∀ ns, resolvePathX (lexSetOf src po nsys) (applyOps v (newTok m0) ops).subset path = .ok ns →
+      Rewrite.sumHwl ns < 65536)
+    (hfitAll : ∀ ns, resolvePathX (lexSetOf src po nsys) ALL path = .ok ns → Rewrite.sumHwl ns < 65536) :
+    shapeOut (tokenizeRw nv (lexSetOf src po nsys) (applyOps v (newTok m0) ops) text cat P pls path) =
+    shapeOut (tokenizeRw nv (lexSetOf src po nsys) (newTok (applyOps v (newTok m0) ops).mode) text cat P pls path) := by
+  have hflag := mode_flag_loaded_any_order v m0 ops
+  exact tokenizeRw_agree0 nv (lexSetOf src po nsys) (applyOps v (newTok m0) ops).mode
+    (applyOps v (newTok m0) ops).subset ALL
+    (gwisAgree_all src po nsys hok _ _ hflag) text cat P pls hk path hfit hfitAll
+
+/-- **Repaired `set_subset` (variant `fix`): the fields the configured plugins declare are always
+loaded.**  After any sequence of `set_mode` / `set_subset` on a fresh tokenizer of a dictionary whose
+plugin stack is `pls`, the subset contains `required_fields()` of every plugin. -/
+theorem set_subset_fix_loads_plugin_fields (v : NzVariant) (pls : List Rewrite.Plugin) (m0 : Mode) (ops : List Op)
+    (j : Nat) (hj : j < 10) (h : (reqOfStack pls).testBit j = true) :
+    (applyOpsP v .fix pls (newTok m0) ops).subset.testBit j = true := by
+  have step : ∀ (st : TokState) (op : Op), st.subset.testBit j = true →
+      (applyOp v st (widenOp (reqOfStack pls) op)).subset.testBit j = true := by
+    intro st op ih
+    cases op with
+    | mode m => simp [widenOp, applyOp, setMode, Nat.testBit_or, ih]
+    | subset s =>
+      simp only [widenOp, applyOp, setSubset, Nat.testBit_or]
+      have : (normalize v (s ||| reqOfStack pls ||| modeSubset st.mode)).testBit j = true :=
+        testBit_normalize_of v _ j (by simp [Nat.testBit_or, h])
+      simp [this]
+  have gen : ∀ (ops : List Op) (st : TokState), st.subset.testBit j = true →
+      (applyOps v st (ops.map (widenOp (reqOfStack pls)))).subset.testBit j = true := by
+    intro ops
+    induction ops with
+    | nil => intro st h; exact h
+    | cons op ops ih => intro st h; exact ih _ (step st op h)
+  exact gen ops (newTok m0) (all_testBit hj)
+
+/-- **Clause 2 with a `JoinNumericPlugin`, repaired `set_subset` (full, no condition on the request).**
+With the variant `fix` every request — the empty one included — yields the word ids and byte boundaries
+of the full-field analysis, for every stack that contains a `JoinNumericPlugin`. -/
+theorem boundaries_subset_free_plugins_fix (v : NzVariant) (nv : Rewrite.NVariant) (src : Src) (po : List Nat) (nsys : Nat)
+    (hok : LexSetOk src po) (m0 : Mode) (ops : List Op) (text : Bytes) (cat : List Nat) (P : List Char → Rewrite.POut)
+    (pls : List Rewrite.Plugin) (hnum : HasNumeric pls) (path : List XNode) :
+    shapeOut (tokenizeRw nv (lexSetOf src po nsys) (applyOpsP v .fix pls (newTok m0) ops) text cat P pls path) =
+    shapeOut (tokenizeRw nv (lexSetOf src po nsys) (newTok (applyOpsP v .fix pls (newTok m0) ops).mode) text cat P pls path) := by
+  obtain ⟨r2, r3⟩ := reqOfStack_numeric pls hnum
+  have hp := set_subset_fix_loads_plugin_fields v pls m0 ops POS_ID (by decide) r2
+  have hn := set_subset_fix_loads_plugin_fields v pls m0 ops NORMALIZED_FORM (by decide) r3
+  unfold applyOpsP at hp hn ⊢
+  exact boundaries_subset_free_plugins v nv src po nsys hok m0 _ text cat P pls path hp hn
+
+/-- system dictionary of the witness: the numerals `1` and `2` (POS id 1 = the numeral POS) -/
+def numSrc : Src :=
+  [([{ surface := [49], headWordLength := 1, posId := 1, dictionaryFormWordId := -1 },
+     { surface := [50], headWordLength := 1, posId := 1, dictionaryFormWordId := -1 }], true)]
+
+/-- a numeric parser that accepts every string and renders it unchanged (the theorems hold for every `P`) -/
+def idParser (acc : List Char) : Rewrite.POut := { n := acc.length, err := 0, done := true, norm := acc }
+
+/-- **The condition is needed on the unchanged tree (`set_subset` does not widen the request for the
+plugins).**  Dictionary `1`, `2` (numerals), `JoinNumericPlugin` configured, text `12`, best path `1 | 2`:
+`StatefulTokenizer::new(dic, Mode::C); set_subset(SURFACE)` loads the subset {SURFACE} — no POS id — and the
+analysis answers `1 | 2`; the full-field analysis answers the joined `12`.  With the repaired `set_subset`
+the same call sequence loads {SURFACE, POS_ID, NORMALIZED_FORM} and answers `12`. -/
+theorem plugin_fields_needed_counterexample :
+    LexSetOk numSrc [0] ∧
+    (applyOpsP .fix .cur [.numeric ⟨1, true⟩] (newTok .C) [.subset (2 ^ SURFACE)]).subset = 2 ^ SURFACE ∧
+    shapeOut (tokenizeRw .fix (lexSetOf numSrc [0] 2) (applyOpsP .fix .cur [.numeric ⟨1, true⟩] (newTok .C) [.subset (2 ^ SURFACE)])
+      [49, 50] [16, 16] idParser [.numeric ⟨1, true⟩] [⟨0, 0, 1, 0, 1, [49]⟩, ⟨1, 1, 2, 1, 2, [50]⟩]) = .ok [(0, 0, 1), (1, 1, 2)] ∧
+    shapeOut (tokenizeRw .fix (lexSetOf numSrc [0] 2) (newTok .C)
+      [49, 50] [16, 16] idParser [.numeric ⟨1, true⟩] [⟨0, 0, 1, 0, 1, [49]⟩, ⟨1, 1, 2, 1, 2, [50]⟩]) = .ok [(4294967295, 0, 2)] ∧
+    (applyOpsP .fix .fix [.numeric ⟨1, true⟩] (newTok .C) [.subset (2 ^ SURFACE)]).subset = 2 ^ SURFACE ||| 2 ^ POS_ID ||| 2 ^ NORMALIZED_FORM ∧
+    shapeOut (tokenizeRw .fix (lexSetOf numSrc [0] 2) (applyOpsP .fix .fix [.numeric ⟨1, true⟩] (newTok .C) [.subset (2 ^ SURFACE)])
+      [49, 50] [16, 16] idParser [.numeric ⟨1, true⟩] [⟨0, 0, 1, 0, 1, [49]⟩, ⟨1, 1, 2, 1, 2, [50]⟩]) = .ok [(4294967295, 0, 2)] := by
+  refine ⟨⟨?_, ?_, rfl⟩, by decide, by decide, by decide, by decide, by decide⟩
+  · intro p hp w hw
+    simp [numSrc] at hp
+    subst hp
+    simp at hw
+    rcases hw with rfl | rfl
+    · exact ⟨strOk_one 49 (by omega), by decide, by decide, ⟨by simp, by simp [toUtf16]⟩, by decide, by decide,
+        ⟨by simp, by simp [toUtf16]⟩, arrOk_nil, arrOk_nil, arrOk_nil, ⟨by simp, by simp⟩⟩
+    · exact ⟨strOk_one 50 (by omega), by decide, by decide, ⟨by simp, by simp [toUtf16]⟩, by decide, by decide,
+        ⟨by simp, by simp [toUtf16]⟩, arrOk_nil, arrOk_nil, arrOk_nil, ⟨by simp, by simp⟩⟩
+  · intro p hp w hw
+    simp [numSrc] at hp
+    subst hp
+    simp at hw
+    rcases hw with rfl | rfl <;> (left; decide)
+
+/-! ### non-vacuity of the hypotheses of the plugin theorems -/
+
+/-- `hp`, `hn` of `boundaries_subset_free_plugins`: a request for POS id and normalised form in mode C
+(SURFACE comes with it), and — junk excluded — a request that `set_mode` extends afterwards -/
+example : (applyOps .fix (newTok .C) [.subset (2 ^ POS_ID ||| 2 ^ NORMALIZED_FORM)]).subset = 13 := by decide
+example : (applyOps .fix (newTok .C) [.subset (2 ^ POS_ID ||| 2 ^ NORMALIZED_FORM), .mode .A]).subset.testBit POS_ID = true ∧
+    (applyOps .fix (newTok .C) [.subset (2 ^ POS_ID ||| 2 ^ NORMALIZED_FORM), .mode .A]).subset.testBit NORMALIZED_FORM = true := by
+  decide
+/-- … and they FAIL for the request {SURFACE} on the unchanged `set_subset`: that is the witness above -/
+example : (applyOps .fix (newTok .C) [.subset (2 ^ SURFACE)]).subset.testBit POS_ID = false := by decide
+example : HasNumeric [.katakana ⟨0, 2⟩, .numeric ⟨1, false⟩] := ⟨⟨1, false⟩, by simp⟩
+example : ¬ HasNumeric [.katakana ⟨0, 2⟩] := by
+  rintro ⟨cfg, h⟩
+  simp at h
+example : HwlLoaded (2 ^ POS_ID) := ⟨2, by omega, by omega, by decide⟩
+example : ¬ HwlLoaded (2 ^ SURFACE) := by
+  rintro ⟨c, h1, _, h⟩
+  rw [Nat.testBit_two_pow] at h
+  have : SURFACE = c := of_decide_eq_true h
+  unfold SURFACE at this
+  omega
+/-- `hfit` / `hfitAll` of `boundaries_subset_free_katakana_any_request` hold on the witness path (sums 0 and 2),
+for the empty request in mode C — the case the theorem adds -/
+example : (resolvePathX (lexSetOf numSrc [0] 2) (applyOps .fix (newTok .C) [.subset 0]).subset
+      [⟨0, 0, 1, 0, 1, [49]⟩, ⟨1, 1, 2, 1, 2, [50]⟩]).bind (fun ns => .ok (Rewrite.sumHwl ns)) = .ok 0 := by decide
+example : (resolvePathX (lexSetOf numSrc [0] 2) ALL [⟨0, 0, 1, 0, 1, [49]⟩, ⟨1, 1, 2, 1, 2, [50]⟩]).bind
+    (fun ns => .ok (Rewrite.sumHwl ns)) = .ok 2 := by decide
+/-- the theorem applies to the witness configuration with a request that feeds the plugin: joined `12` -/
+example : shapeOut (tokenizeRw .fix (lexSetOf numSrc [0] 2)
+      (applyOps .fix (newTok .C) [.subset (2 ^ POS_ID ||| 2 ^ NORMALIZED_FORM)])
+      [49, 50] [16, 16] idParser [.numeric ⟨1, true⟩] [⟨0, 0, 1, 0, 1, [49]⟩, ⟨1, 1, 2, 1, 2, [50]⟩]) = .ok [(4294967295, 0, 2)] := by
+  decide
 
 /-! ### non-vacuity -/
 
